@@ -9,7 +9,7 @@ namespace Driver
 
   `c33 run <api m|u> <kind> <ax r|c> <p1> … <p6> <items…>`
      kind = ins (p1 = pos, p2 = n) | del (pos, n) | mov (pos, n, d) | cut / copy (r1 c1 r2 c2 tr tc)
-          | clear (r1 c1 r2 c2) | clearundo (r1 c1 r2 c2)
+          | clear (r1 c1 r2 c2) | clearundo (r1 c1 r2 c2) | delundo (pos, n: delete then undo)
      items: `L:r,c,id`   `F:<parts>,<formula>[,<formula2>]`
             parts = `r1.c1.r2.c2` (range) or `r.c` (single), joined by `+`
             formula = `<template hex>~<atoms joined by ;  or ->`  (atoms as in `c12 sheet`, `/`-separated fields)
@@ -86,7 +86,7 @@ def c33 (args : List String) : String :=
           if kind == "ins" then [.insert a b]
           else if kind == "del" then [.delete a b]
           else if b ≤ 0 ∨ c = 0 then [] else blockOps a b.toNat c
-        let cfs := p.cfs.map fun e => ops.foldl (fun e o => cfStep axis 0 o e) e
+        let cfs := p.cfs.filterMap fun e => ops.foldl (fun (e : Option CfE) o => e.bind (cfStep axis 0 o)) (some e)
         "ok " ++ showState bk.links cfs
     else if kind == "cut" || kind == "copy" then
       let src : Rect := ⟨a, b, c - a + 1, d - b + 1⟩
@@ -100,7 +100,7 @@ def c33 (args : List String) : String :=
     else if kind == "clear" then
       let area : Rect := ⟨a, b, c - a + 1, d - b + 1⟩
       "ok " ++ showState (p.links.filter fun l => !(area.has l.row l.col)) p.cfs
-    else if kind == "clearundo" then
+    else if kind == "clearundo" || kind == "delundo" then
       "ok " ++ showState p.links p.cfs
     else "bad-op"
   | _ => "bad-op"
